@@ -1,5 +1,5 @@
-(* C07 (SIR hierarchy and preferential mixing) -- statements only; proofs in Proofs/C07xPoly.v, C07xHier.v,
-   C07xIC.v, C07xPref.v, C07xCed.v.  Joins the obligations of property C07 (harness/c07x.py, called from harness/c07.py).
+(* C07 (SIR hierarchy and preferential mixing) -- statements only; proofs in Proofs/C07xPoly.v, C07xHier.v, C07xIC.v,
+   C07xPref.v, C07xMf.v, C07xCed.v, C07xCedIC.v, C07xEd.v, C07xEdIC.v.  Joins the obligations of property C07 (harness/c07x.py, called from harness/c07.py).
 
    Form of every equivalence: for the two models "small" (state x) and "big" (state X) and a change of variables
    Phi : x |-> X whose components are POLYNOMIALS in theta (coefficient lists, Model/Pgf.v),
@@ -106,6 +106,14 @@ Theorem C07x_ebcm_to_effective_degree_generated : forall c t N tau g phiS0 phiR0
   veq (g_dSIR_effective_degree (Phi_ed c N tau g phiS0 phiR0 theta R) t N (length c, length c) tau g)
       (DPhi_ed c N tau g phiS0 phiR0 theta (vnth 0 e) (vnth 1 e)).
 Proof. exact ebcm_to_ed_generated. Qed.
+
+(* returned series of the two effective degree models on their manifolds: S = sum of the S block = N psihat(theta), R = R *)
+Theorem C07x_effective_degree_outputs_agree : forall c N tau g phiS0 phiR0 theta R,
+  (vsum (drop_last 2 (Phi_ced c N tau g phiS0 phiR0 theta R)) == N * peval c theta /\
+   vnth 0 (take_last 2 (Phi_ced c N tau g phiS0 phiR0 theta R)) == R) /\
+  (vsum (drop_last 1 (Phi_ed c N tau g phiS0 phiR0 theta R)) == N * peval c theta /\
+   vnth 0 (take_last 1 (Phi_ed c N tau g phiS0 phiR0 theta R)) == R).
+Proof. exact ed_outputs_both. Qed.
 
 (* ---------- the wrappers, rho path: closures and initial points ---------- *)
 (* psihat, psihatPrime, psihatDPrime as written in EBCM_from_graph / SIR_super_compact_pairwise_from_graph are the
@@ -313,6 +321,7 @@ Print Assumptions C07x_outputs_agree.
 Print Assumptions C07x_ebcm_to_compact_effective_degree.
 Print Assumptions C07x_compact_effective_degree_from_graph_on_manifold.
 Print Assumptions C07x_nonvacuous_ced.
+Print Assumptions C07x_effective_degree_outputs_agree.
 Print Assumptions C07x_effective_degree_from_graph_on_manifold.
 Print Assumptions C07x_ebcm_to_effective_degree.
 Print Assumptions C07x_ebcm_to_effective_degree_generated.
